@@ -1438,7 +1438,7 @@ func cmdC03Deep(a cmdArgs) {
 	maxN := 4_096_000
 	if a.thorough {
 		maxStack, label, limit, factor = 0, "Go default (1 GB limit, 512 MB usable)", 25*time.Second, 0
-		maxN = 64_000_000
+		maxN = 8_192_000 // beyond that the token list of the source alone exhausts the child's address space
 		fams = []fam{fams[0], fams[1], fams[4], fams[6]}
 	} else {
 		fams = []fam{fams[0], fams[1], fams[4], fams[6]}
@@ -1495,7 +1495,8 @@ func cmdC03Deep(a cmdArgs) {
 	var front []c03DeepResult
 	detail := ""
 	for _, r := range results {
-		if r.Family != "script-recursion" && r.Dies > 0 {
+		// a death by memory exhaustion on a source of tens of megabytes is the size of the input, not its nesting
+		if r.Family != "script-recursion" && r.Dies > 0 && strings.Contains(r.Fatal, "stack overflow") {
 			front = append(front, r)
 			detail += fmt.Sprintf("%s: dies at depth %d (%d bytes of source), survives %d; ", r.Family, r.Dies, r.SourceBytes, r.Survives)
 		}
